@@ -942,6 +942,11 @@ func c09W9(l *core.Ledger, r *rt) {
 						l.Check(held || inWatcher, "C09-W9", key, u.Pos(), "called while the stream is being replaced / by the per-write watcher", "the stream is cancelled outside the stream replacement and outside the per-write watcher")
 						if inWatcher && !held {
 							c09W10(l, r, u)
+							// C06-P13 (emitted only where the caller maps it): the stream the watcher
+							// resets is shared by every call on the node
+							if l.Remap != nil {
+								l.Bad("C06-P13", fnKey(u.Parent().Parent())+"/watcher/resets-shared-stream", u.Pos(), "when the context of one call ends during its write, the per-write watcher cancels the node's stream - which carries the messages of every call on that node: the server discards what it has received and not yet read (everything behind a handler that is still running), i.e. the one-way messages of other calls that have returned, whose contexts never ended and whose node is reachable all the time are delivered zero times")
+							}
 						}
 						continue
 					}
